@@ -79,6 +79,11 @@ inductive Op where
   | donate (u which amt : Nat)
   /-- `ExecuteMsg::Swap` naming `off` while attaching `sent` (native), or naming a cw20 asset -/
   | swapBad (u dir off sent : Nat)
+  /-- messages a cw20-LP pair must refuse whatever they carry: `ExecuteMsg::WithdrawLiquidity {}` with
+      any attached coins (`kind = 0`; it is the token-factory entry point and the LP denom is empty),
+      a `WithdrawLiquidity` hook arriving from a token that is not the LP token (`kind = 1`), a `Swap`
+      hook arriving from a token that is not one of the pool assets (`kind = 2`) -/
+  | foreign (kind u amt : Nat)
 deriving Repr, DecidableEq
 
 def St.user (s : St) (u : Nat) : User := s.users.getD u { a := 0, b := 0, lp := 0 }
@@ -258,6 +263,7 @@ def step (cv : Curve) (s : St) : Op → Res St
   | .setFees o f => setFees s o f
   | .donate u w amt => donate s u w amt
   | .swapBad u dir off sent => swapBad cv s u dir off sent
+  | .foreign _ _ _ => .err
 
 /-- run a history; a failed operation leaves the state untouched -/
 def reach (cv : Curve) (s : St) : List Op → St
